@@ -32,6 +32,7 @@ DEFAULTS = dict(
     p_head_perm=0.0,     # named head arguments listed in a drawn order (per rule / fact)
     p_if_composite=0.0,  # if-then-else whose branches are lists / records
     allow_mba_head_perm=False,
+    p_spread_edb=0.0,    # fact table with pairwise different values in one Num column
     avoid_d11=True,      # known finding C01 D11 (see gen.cmp); False re-derives it
     p_recif=0.0,         # a variable bound to a record-valued if-then-else, read >= 2 times
 )
@@ -115,8 +116,17 @@ class Gen(object):
         n = rng.randint(1, self.o['max_rows'])
         types = [t for f, t in s['fields']] + ([s['value']] if s['value'] else [])
         pool = [tuple(self.lit_of(t) for t in types) for _ in range(max(1, n // 2 + 1))]
-        for _ in range(n):
+        spread = None
+        if self.o['p_spread_edb'] and 'N' in types and self.chance(self.o['p_spread_edb']):
+            # a table whose first Num column takes pairwise different values in a drawn
+            # arrival order (ranking aggregates need > K distinct values in a group)
+            n = rng.randint(4, 6)
+            spread = (types.index('N'), rng.sample(NUMS, n))
+            self.labels.add('spread_edb')
+        for i_row in range(n):
             row = list(rng.choice(pool))
+            if spread is not None:
+                row[spread[0]] = ('lit', spread[1][i_row])
             if self.o['p_null_fact'] and len(row) > 1:
                 for i in range(1, len(row)):
                     if types[i] in ATOMS and self.chance(self.o['p_null_fact']):
